@@ -5,6 +5,8 @@
    usual comparison of the quotients whenever both denominators are positive. *)
 From Verif Require Import Prelude Model.SI.
 From Verif Require Proofs.SI.
+From Verif Require Import Gen.SIGen.
+From Verif Require Proofs.SIGen.
 From Coq Require Import QArith.
 Open Scope Q_scope.
 
@@ -75,6 +77,32 @@ Theorem C02_prun_path_quality : forall els sp i j ri rj,
   Forall Inv rj /\ forall c', In c' rj -> exists c, In c ri /\ cf c' = cf c /\ quality_le c' c.
 Proof. exact Proofs.SI.prun_path_quality. Qed.
 Print Assumptions C02_prun_path_quality.
+
+(* ---- second tie (translator): the quality figures and the loss / gain updates as translated from
+        gnpy/core/info.py of /repo on every run (harness/pygen_c01.py -> Gen/SIGen.v) ---- *)
+Theorem C02_source_snr_lin : forall c, g_snr_lin c = osnr c.
+Proof. exact Proofs.SIGen.gen_snr_lin. Qed.
+Print Assumptions C02_source_snr_lin.
+Theorem C02_source_snr_nli : forall c, g_snr_nli c = snr_nli c.
+Proof. exact Proofs.SIGen.gen_snr_nli. Qed.
+Print Assumptions C02_source_snr_nli.
+Theorem C02_source_gsnr : forall c, g_gsnr c = gsnr c.
+Proof. exact Proofs.SIGen.gen_gsnr. Qed.
+Print Assumptions C02_source_gsnr.
+Theorem C02_source_att_shares : forall k c,
+  rs (g_apply_attenuation_lin k c) = rs c /\ ra (g_apply_attenuation_lin k c) = ra c /\ rn (g_apply_attenuation_lin k c) = rn c.
+Proof. exact Proofs.SIGen.gen_att_shares. Qed.
+Print Assumptions C02_source_att_shares.
+Theorem C02_source_gain_shares : forall g c,
+  rs (g_apply_gain_lin g c) = rs c /\ ra (g_apply_gain_lin g c) = ra c /\ rn (g_apply_gain_lin g c) = rn c.
+Proof. exact Proofs.SIGen.gen_gain_shares. Qed.
+Print Assumptions C02_source_gain_shares.
+Theorem C02_source_add_ase : forall x c, g_add_ase x c = add_ase x c.
+Proof. exact Proofs.SIGen.gen_add_ase. Qed.
+Print Assumptions C02_source_add_ase.
+Theorem C02_source_add_nli : forall x c, g_add_nli x c = add_nli x c.
+Proof. exact Proofs.SIGen.gen_add_nli. Qed.
+Print Assumptions C02_source_add_nli.
 
 (* ---- non-vacuity ---- *)
 Definition ex_c : chan := mkC 193000000000000 50000000000 32000000000 (1#1000) (9#10) (1#20) (1#20).
